@@ -1,6 +1,8 @@
 //! C12 harness: formatting preserves the token stream and the comments.
 //!
-//! usage: c12 <mode> <seed> <n> <cases_out> <impl_out> <model_in>
+//! usage: c12 <mode> <seed> <n> <cases_out> <impl_out> <model_in> [93|08|19]
+//!   the last argument is the VHDL standard of the parser (default 2008); case lines are tagged U93 / U08 / U19
+//!   (`U` = the standard of the run); show:/min: take the standard from the environment variable C12_STD
 //!   mode = files:<list>   every path of the list file (read as ISO-8859-1) + `n` variants of each
 //!          cases:<file>   `U <code points>` lines (snippets: tried as they are and inside wrappers) + `n` variants
 //!          gen            `n` generated design files (grammar-derived sentences), each with 2 variants
@@ -114,14 +116,40 @@ fn dump_tokens(df: &DesignFile, kws: &[Kind]) -> String {
 // ---------------------------------------------------------------------------------------------
 // oracle
 // ---------------------------------------------------------------------------------------------
+/// one parser per VHDL standard the front end supports; `cur` selects the standard of the current case
 struct Ctx {
-    parser: VHDLParser,
-    kws: Vec<Kind>,
+    parsers: Vec<VHDLParser>,
+    kwss: Vec<Vec<Kind>>,
+    cur: std::cell::Cell<usize>,
+}
+const STDS: [VHDLStandard; 3] = [VHDLStandard::VHDL1993, VHDLStandard::VHDL2008, VHDLStandard::VHDL2019];
+const STD_TAGS: [&str; 3] = ["U93", "U", "U19"];
+impl Ctx {
+    fn new(cur: usize) -> Ctx {
+        Ctx {
+            parsers: STDS.iter().map(|s| VHDLParser::new(*s)).collect(),
+            kwss: STDS.iter().map(|s| s.keywords().to_vec()).collect(),
+            cur: std::cell::Cell::new(cur),
+        }
+    }
+    fn parser(&self) -> &VHDLParser {
+        &self.parsers[self.cur.get()]
+    }
+    fn kws(&self) -> &[Kind] {
+        &self.kwss[self.cur.get()]
+    }
+}
+fn std_index(s: &str) -> usize {
+    match s {
+        "93" | "1993" => 0,
+        "19" | "2019" => 2,
+        _ => 1,
+    }
 }
 
 fn parse(ctx: &Ctx, text: &str) -> (DesignFile, Vec<Diagnostic>) {
     let mut d: Vec<Diagnostic> = Vec::new();
-    let df = ctx.parser.parse_design_source(&Source::inline(Path::new("/verif_c12.vhd"), text), &mut d);
+    let df = ctx.parser().parse_design_source(&Source::inline(Path::new("/verif_c12.vhd"), text), &mut d);
     (df, d)
 }
 
@@ -141,8 +169,8 @@ fn flat_comments(toks: &[Token]) -> Vec<String> {
 }
 
 /// tokens of a text as the tokenizer alone sees them (no parser)
-fn lex_only(text: &str) -> Vec<Token> {
-    let symbols = Symbols::default();
+fn lex_only(std: VHDLStandard, text: &str) -> Vec<Token> {
+    let symbols = Symbols::from_standard(std);
     let src = Source::inline(Path::new("/verif_c12_out.vhd"), text);
     let contents = src.contents();
     let tokenizer = Tokenizer::new(&symbols, &src, ContentReader::new(&contents));
@@ -169,13 +197,13 @@ fn tok_key(t: &Token, kws: &[Kind]) -> String {
 /// | out=<kinds found instead> | flags=...`
 fn signature(ctx: &Ctx, df: &DesignFile, out: &str) -> String {
     let a: Vec<&Token> = df.design_units.iter().flat_map(|(t, _)| t.iter()).collect();
-    let b = match catch_unwind(AssertUnwindSafe(|| lex_only(out))) {
+    let b = match catch_unwind(AssertUnwindSafe(|| lex_only(STDS[ctx.cur.get()], out))) {
         Ok(b) => b,
         Err(_) => return "sig=lexer-panic".into(),
     };
     let n = a.len().min(b.len());
     let mut i = 0;
-    while i < n && tok_key(a[i], &ctx.kws) == tok_key(&b[i], &ctx.kws) {
+    while i < n && tok_key(a[i], ctx.kws()) == tok_key(&b[i], ctx.kws()) {
         i += 1;
     }
     if i == a.len() && i == b.len() {
@@ -195,7 +223,7 @@ fn signature(ctx: &Ctx, df: &DesignFile, out: &str) -> String {
             j += 1;
         }
         let at = fa.get(j).map(|x| x.0).or(fb.get(j).map(|x| x.0)).unwrap_or(0);
-        let k = |x: usize| a.get(x).map(|t| kind_name(t.kind, &ctx.kws)).unwrap_or_else(|| "EOF".into());
+        let k = |x: usize| a.get(x).map(|t| kind_name(t.kind, ctx.kws())).unwrap_or_else(|| "EOF".into());
         return format!(
             "sig=comments {} [{}] {} | {} before, {} after",
             if at > 0 { k(at - 1) } else { "BOF".into() },
@@ -217,19 +245,19 @@ fn signature(ctx: &Ctx, df: &DesignFile, out: &str) -> String {
     }
     let mut sig = String::from("sig=ctx=");
     for t in &a[s..i] {
-        sig.push_str(&kind_name(t.kind, &ctx.kws));
+        sig.push_str(&kind_name(t.kind, ctx.kws()));
         sig.push(' ');
     }
     match a.get(i) {
-        Some(t) => write!(sig, "[{}]", kind_name(t.kind, &ctx.kws)).unwrap(),
+        Some(t) => write!(sig, "[{}]", kind_name(t.kind, ctx.kws())).unwrap(),
         None => sig.push_str("[EOF]"),
     }
     for t in a.iter().skip(i + 1).take(2) {
         sig.push(' ');
-        sig.push_str(&kind_name(t.kind, &ctx.kws));
+        sig.push_str(&kind_name(t.kind, ctx.kws()));
     }
     sig.push_str(" | out=");
-    let o: Vec<String> = b.iter().skip(i).take(2).map(|t| kind_name(t.kind, &ctx.kws)).collect();
+    let o: Vec<String> = b.iter().skip(i).take(2).map(|t| kind_name(t.kind, ctx.kws())).collect();
     sig.push_str(&if o.is_empty() { "EOF".to_string() } else { o.join(" ") });
     let mut flags: Vec<&str> = Vec::new();
     if let Some(t) = a.get(i) {
@@ -282,12 +310,12 @@ fn check_source(ctx: &Ctx, text: &str) -> Outcome {
     o.comments = df.design_units.iter().map(|(t, _)| flat_comments(t).len()).sum();
     let out = VHDLFormatter::format_design_file(&df);
     let (df2, d2) = parse(ctx, &out);
-    o.out_tokens = dump_tokens(&df2, &ctx.kws);
+    o.out_tokens = dump_tokens(&df2, ctx.kws());
     let mut cps = String::new();
     for c in out.chars() {
         write!(cps, "{} ", c as u32).unwrap();
     }
-    o.model_in = format!("{}|{}", dump_tokens(&df, &ctx.kws), cps.trim_end());
+    o.model_in = format!("{}|{}", dump_tokens(&df, ctx.kws()), cps.trim_end());
     if !d2.is_empty() {
         let m = &d2[0];
         o.verdict = format!(
@@ -309,10 +337,10 @@ fn check_source(ctx: &Ctx, text: &str) -> Outcome {
                     "BAD:unit {} token {}: {}/{} at {} became {}/{} at {} of the output",
                     u,
                     i,
-                    kind_name(a.kind, &ctx.kws),
+                    kind_name(a.kind, ctx.kws()),
                     value_str(&a.value),
                     fmt_range(&a.pos.range),
-                    kind_name(b.kind, &ctx.kws),
+                    kind_name(b.kind, ctx.kws()),
                     value_str(&b.value),
                     fmt_range(&b.pos.range)
                 );
@@ -444,8 +472,8 @@ const COMMENT_TEXT: [&str; 26] = [
     " */ stray", "x", "-", "--", " \u{20ac} \u{1f600} non latin-1", " 'quote' \"str\"", "*", "/", " a*/b", " ends with star *", " \\ backslash\\",
     " if then else end", " ;", " :=", "!", " vhdl_ls", "\u{a0}",
 ];
-const BLOCK_TEXT: [&str; 18] = [
-    " c ", "", "x", " two\nlines ", "\n", " caf\u{e9} ", "*", " * ", "/", " -- dashes ", " \u{20ac} ", " a\n\n  b\n", "**", " / * ", " trailing   ",
+const BLOCK_TEXT: [&str; 21] = [
+    " \u{1f4a3} ", "\u{1f600}\u{1f600}", " a \u{10348} b ", " c ", "", "x", " two\nlines ", "\n", " caf\u{e9} ", "*", " * ", "/", " -- dashes ", " \u{20ac} ", " a\n\n  b\n", "**", " / * ", " trailing   ",
     "\t", " \"s\" 'c' ", "-",
 ];
 const EXT_IDENTS: [&str; 10] =
@@ -1346,6 +1374,18 @@ const OPT_TEMPLATES: &[(Wrap, &[Seg])] = &[
     (Wrap::Decl, &[F("use"), A(&["work . p . all", "work . p . \"+\"", "work . p . 'a' , ieee . q . x"]), F(";")]),
     (Wrap::Iface, &[A(&["", "signal", "variable", "constant", "file"]), F("x"), O(", y"), F(":"), A(&["", "in", "out", "inout", "buffer", "linkage"]), F("t"), O("bus"), O(":= 1")]),
     (Wrap::Port, &[O("signal"), F("x"), O(", y"), F(":"), A(&["", "in", "out", "inout", "buffer"]), F("t"), O("( 0 to 1 )"), O("bus"), O(":= '0'")]),
+    // ---- literals whose text is re-emitted verbatim
+    (Wrap::Decl, &[F("constant k : t :="), A(&["x\"FF\"", "12sb\"01\"", "B\"1_0\"", "\"a\"\"b\"", "'c'", "\\e x\\", "1.5e-3", "16#F.F#e+1"]), F("&"), A(&["ux\"f\"", "8SX\"F\"", "\"\"", "'''"]), F(";")]),
+    // ---- VHDL-2019 (accepted by the 2019 parser only)
+    (Wrap::Port, &[F("a : in bit ; b : out bit"), O(";")]),
+    (Wrap::Iface, &[F("x : t ; signal y : out t"), O(";")]),
+    (Wrap::Decl, &[F("component c"), O("is"), O("generic ( n : natural"), O("; ) ;"), O("port ( p : in bit ; ) ;"), F("end"), O("component"), O("c"), F(";")]),
+    (Wrap::Decl, &[A(&["", "pure", "impure"]), F("function f"), O("parameter"), O("( x : t )"), F("return"), O("r of"), F("t"), O("is begin return x ; end function f"), F(";")]),
+    (Wrap::Decl, &[A(&["constant k : t :=", "signal s : t :=", "variable v : t :=", "attribute at of x : signal is"]), F("0 when c"), O("else 1 when d"), O("else 2"), F(";")]),
+    (Wrap::Seq, &[O("lbl :"), A(&["v :=", "return"]), F("( 0 when c else 1 )"), F(";")]),
+    (Wrap::Decl, &[F("view v of r is a : in ;"), O("b , c : out ;"), O("d : view w ;"), F("end view"), O("v"), F(";")]),
+    (Wrap::Iface, &[F("signal x :"), A(&["view v", "view ( v )", "view v of r", "view ( v ) of r"]), O("; y : t")]),
+    (Wrap::Port, &[F("x :"), A(&["view v", "view ( w . v )", "view v of r"]), O(";")]),
     // ---- design units
     (Wrap::Unit, &[O("library ieee , work ;"), O("use ieee . std_logic_1164 . all ;"), O("context work . ctx ;"), F("entity e is"), O("generic ( n : natural := 1 ) ;"), O("port ( p : in bit ) ;"), O("constant c : t := 1 ;"), O("begin"), O("assert true ;"), F("end"), O("entity"), O("e"), F(";")]),
     (Wrap::Unit, &[O("library l ;"), F("architecture a of e is"), O("signal s : bit ;"), F("begin"), O("s <= '1' ;"), F("end"), O("architecture"), O("a"), F(";")]),
@@ -1399,19 +1439,24 @@ fn opt_expand(segs: &[Seg]) -> Vec<String> {
 }
 
 // ---------------------------------------------------------------------------------------------
-fn parse_u_line(line: &str) -> Option<String> {
+/// `U <code points>` (standard of the run), `U93 ...`, `U19 ...` (that standard); returns (forced standard, text)
+fn parse_u_line(line: &str) -> Option<(Option<usize>, String)> {
     let mut it = line.split_whitespace();
-    if it.next()? != "U" {
-        return None;
-    }
+    let forced = match it.next()? {
+        "U" => None,
+        "U93" => Some(0),
+        "U08" => Some(1),
+        "U19" => Some(2),
+        _ => return None,
+    };
     let mut s = String::new();
     for x in it {
         s.push(char::from_u32(x.parse::<u32>().ok()?)?);
     }
-    Some(s)
+    Some((forced, s))
 }
-fn u_line(text: &str) -> String {
-    let mut out = String::from("U");
+fn u_line(std: usize, text: &str) -> String {
+    let mut out = String::from(if std == 1 { "U08" } else { STD_TAGS[std] });
     for ch in text.chars() {
         write!(out, " {}", ch as u32).unwrap();
     }
@@ -1424,8 +1469,7 @@ fn main() {
     if let Some(file) = mode.strip_prefix("min:") {
         // debugging aid: token-level delta debugging of a failing source (keeps "clean input, BAD verdict")
         let text = std::fs::read_to_string(file).unwrap();
-        let kws: Vec<Kind> = VHDLStandard::default().keywords().to_vec();
-        let ctx = Ctx { parser: VHDLParser::new(VHDLStandard::default()), kws };
+        let ctx = Ctx::new(std_index(&std::env::var("C12_STD").unwrap_or_default()));
         std::panic::set_hook(Box::new(|_| {}));
         let bad = |t: &str| -> bool {
             let v = run_case(&ctx, t).verdict;
@@ -1504,8 +1548,7 @@ fn main() {
     if let Some(file) = mode.strip_prefix("show:") {
         // debugging aid: print the formatter's output for a UTF-8 file
         let text = std::fs::read_to_string(file).unwrap();
-        let kws: Vec<Kind> = VHDLStandard::default().keywords().to_vec();
-        let ctx = Ctx { parser: VHDLParser::new(VHDLStandard::default()), kws };
+        let ctx = Ctx::new(std_index(&std::env::var("C12_STD").unwrap_or_default()));
         let (df, d) = parse(&ctx, &text);
         for x in d.iter() {
             eprintln!("input diagnostic at {}: {}", fmt_range(&x.pos.range), x.message);
@@ -1525,13 +1568,13 @@ fn main() {
     let mut impl_out = std::io::BufWriter::new(std::fs::File::create(&args[5]).unwrap());
     let mut model_in = std::io::BufWriter::new(std::fs::File::create(&args[6]).unwrap());
     std::panic::set_hook(Box::new(|_| {}));
+    let run_std = args.get(7).map(|s| std_index(s)).unwrap_or(1);
 
     let worker = std::thread::Builder::new().stack_size(512 << 20).spawn(move || {
-        let kws: Vec<Kind> = VHDLStandard::default().keywords().to_vec();
-        let ctx = Ctx { parser: VHDLParser::new(VHDLStandard::default()), kws };
+        let ctx = Ctx::new(run_std);
         let mut rng = Rng::new(seed).fork();
         let mut emit = |text: &str| -> bool {
-            writeln!(cases_out, "{}", u_line(text)).unwrap();
+            writeln!(cases_out, "{}", u_line(ctx.cur.get(), text)).unwrap();
             cases_out.flush().unwrap();
             let o = run_case(&ctx, text);
             writeln!(impl_out, "{}|{}|{}|{}|{}", o.verdict, o.units, o.tokens, o.comments, o.out_tokens).unwrap();
@@ -1569,7 +1612,8 @@ fn main() {
             }
         } else if let Some(file) = mode.strip_prefix("cases:") {
             for line in std::fs::read_to_string(file).unwrap().lines() {
-                let Some(frag) = parse_u_line(line) else { continue };
+                let Some((forced, frag)) = parse_u_line(line) else { continue };
+                ctx.cur.set(forced.unwrap_or(run_std));
                 let mut chosen = None;
                 for w in wrappers(&frag) {
                     if accepted(&ctx, &w) {
@@ -1589,7 +1633,8 @@ fn main() {
                 if line.trim().is_empty() || line.starts_with('#') {
                     continue;
                 }
-                if let Some(t) = parse_u_line(line) {
+                if let Some((forced, t)) = parse_u_line(line) {
+                    ctx.cur.set(forced.unwrap_or(run_std));
                     emit(&t);
                 }
             }
